@@ -415,3 +415,32 @@ pub async fn read_ip_list(path: &str) -> Result<SmallVec<IpAddr, 4>> {
         reload::IpReload::Refuse(_) => Ok(SmallVec::new()),
     }
 }
+
+/// Re-exports of the private shell surface for out-of-tree runtime verification
+/// harnesses. Compiled only with the `verif-hooks` feature; re-exports only, no
+/// behaviour.
+#[cfg(feature = "verif-hooks")]
+pub mod verif_hooks {
+    pub use super::connections::reconnect_uplink;
+    pub use super::housekeeping::handle_housekeeping;
+    pub use super::packet_handler::{
+        InstantForwarder, drain_packet_queue, flush_all_batches, forward_via_connection,
+        handle_srt_packet, handle_uplink_packet, process_connection_events,
+    };
+    pub use super::reload::{IpReload, ReloadRefusal, analyze_ip_reload, analyze_ip_reload_text};
+    pub use super::uplink::{
+        ConnIo, ConnIoMap, ConnectionId, ReaderHandle, UplinkPacket, create_uplink_channel,
+        sync_readers,
+    };
+    pub use super::uplink_recv::process_uplink_packet;
+
+    /// Public wrapper: `attribute_nak` itself is `pub(crate)`.
+    pub fn attribute_nak(
+        connections: &mut [srtla_core::connection::SrtlaConnection],
+        seq_tracker: &super::SequenceTracker,
+        nak: u32,
+        current_time_ms: u64,
+    ) -> Option<usize> {
+        super::packet_handler::attribute_nak(connections, seq_tracker, nak, current_time_ms)
+    }
+}
